@@ -168,12 +168,81 @@ def prop_of_file(f):
     return "C12"
 
 
+def _sub_guarded(body, s):
+    """`x - k` (k a constant) where x is a local or parameter, a comparison on a dominating edge gives x >= k, and x is not
+    assigned between that edge and the subtraction"""
+    sub = None
+    for x in walk(s["args"][0]):
+        if x[0] == "bin" and x[1] == "Sub":
+            sub = x
+            break
+    if sub is None:
+        for pt, it in flow.points(body, s["pt"][0]):
+            if isinstance(it, dict) and "rv" in it:
+                e = P(body).rvalue(it["rv"])
+                for x in walk(e):
+                    if x[0] == "bin" and x[1] in ("Sub", "SubWithOverflow"):
+                        sub = x
+    if sub is None:
+        return False
+    x, c = sub[2], sub[3]
+    if not (c[0] == "const" and isinstance(c[2], int) and c[2] >= 0 and x[0] in ("local", "param")):
+        return False
+    k = c[2]
+
+    def cval(e):
+        return e[2] if e[0] == "const" and isinstance(e[2], int) else None
+    for b in sorted(body.reachable()):
+        t = body.term(b)
+        if t["t"] != "switch" or [v for v, _ in t["arms"]] != [0]:
+            continue
+        e = P(body).operand(t["d"])
+        for truth, tgt in ((False, t["arms"][0][1]), (True, t["else"])):
+            if tgt == t["else"] and truth is False:
+                continue
+            if not flow.edge_dominates(body, (b, tgt), s["pt"][0]):
+                continue
+            facts = []
+            lrules.atoms(e, truth, facts)
+            good = False
+            for a, tr in facts:
+                if a[0] != "bin":
+                    continue
+                op, l, r = a[1], a[2], a[3]
+                if not tr:
+                    op = {"Eq": "Ne", "Ne": "Eq", "Lt": "Ge", "Ge": "Lt", "Gt": "Le", "Le": "Gt"}.get(op)
+                if l == x and cval(r) is not None:
+                    m = cval(r)
+                    good |= (op == "Ne" and m == 0 and k <= 1) or (op == "Gt" and m >= k - 1) or (op == "Ge" and m >= k)
+                if r == x and cval(l) is not None:
+                    m = cval(l)
+                    good |= (op == "Ne" and m == 0 and k <= 1) or (op == "Lt" and m >= k - 1) or (op == "Le" and m >= k)
+            if not good:
+                continue
+            if x[0] == "param" and not body.defs().get(x[1]):
+                return True
+            # no assignment to x between the edge and the subtraction
+            defs = {(d[0], d[1]) for d in body.defs().get(x[1], [])}
+            hit = flow.find_path(body, (tgt, -1), lambda q, it: q in defs and q != s["pt"] and not (q[0] == s["pt"][0] and q[1] >= s["pt"][1] - 1),
+                                 blocks_point=lambda q, it: q == s["pt"])
+            if hit is None:
+                return True
+            # an assignment is reachable from the edge before the site only if it can then still reach the site without passing the guard again
+            last = hit[-1]
+            back = flow.find_path(body, last, lambda q, it: q == s["pt"], edge_ok=lambda s_, t_, l_: not (s_ == b))
+            if back is None:
+                return True
+    return False
+
+
 def _generic(body, s):
     k = s["kind"]
     if k in ("assert:nullptr", "assert:misaligned"):
         return "debug-only pointer checks of safe std constructors"
     if k in ("assert:overflow:Add", "assert:overflow:Mul"):
         return "addition/multiplication of in-memory lengths, offsets and counters (bounded by the size of the text) cannot overflow usize/u32"
+    if k == "assert:overflow:Sub" and _sub_guarded(body, s):
+        return "subtraction of a constant from a local that a dominating comparison proves large enough (and that is not reassigned in between)"
     if s["mac"] and s["mac"][-1] in TRUSTED_MACROS:
         return TRUSTED_MACROS[s["mac"][-1]]
     if body.file.endswith("lexer.rs") and s["mac"] and any("Logos" in m or "logos" in m for m in s["mac"]):
